@@ -18,7 +18,7 @@ func init() {
 	Registry["C18"] = checkC18
 	Descriptions["C07"] = "C07-recover (every goroutine gldap starts that can run a handler or the decode slice registers, before any such call and exactly under !disablePanicRecovery, a deferred function that calls recover() directly), " +
 		"C07-accept (a failing Accept that is not the shutting-down case has a path back to the accept loop), C07-noexit (no os.Exit / log.Fatal / runtime.Goexit / undischarged explicit panic reachable from connection or request goroutines), " +
-		"C07-contained (connection/request goroutines never cancel the server context or close the listener), C07-nolock-io (no Server.mu / Mux.mu can be held at a call that reaches blocking socket I/O), C07-isolated (a connection's reader/writer pair is built in initConn from its own socket and never reset or replaced elsewhere: rules C13-pair / C05-owner), C07-accept-nonblocking (Run and its synchronous helpers perform no handshake / read / write on an accepted connection), C07-lockbalance (every Unlock/RUnlock, explicit or deferred, finds its mutex locked on every path: unlocking an unlocked mutex is a fatal error no recover() contains), C07-wg-nonneg (no connWg place is given back twice: a negative WaitGroup counter panics outside every recover; rule C12-nonneg). Decides fencing and survival of the accept loop; does not decide that bystanders receive correct answers."
+		"C07-contained (connection/request goroutines never cancel the server context or close the listener), C07-nolock-io (no Server.mu / Mux.mu can be held at a call that reaches blocking socket I/O), C07-isolated (a connection's reader/writer pair is built in initConn from its own socket and never reset or replaced elsewhere: rules C13-pair / C05-owner), C07-accept-nonblocking (Run and its synchronous helpers perform no handshake / read / write on an accepted connection), C07-lockbalance (every Unlock/RUnlock, explicit or deferred, finds its mutex locked on every path: unlocking an unlocked mutex is a fatal error no recover() contains), C07-wg-nonneg (no connWg place is given back twice: a negative WaitGroup counter panics outside every recover; rule C12-nonneg), C07-map-locked (a map field of Server / Mux / conn that is written somewhere is accessed only with a mutex held: concurrent map access is a fatal error). Decides fencing and survival of the accept loop; does not decide that bystanders receive correct answers."
 	Descriptions["C11"] = "Necessary structural condition for bounded Stop: C11-sites (blocking socket I/O sites on connection/request goroutines enumerated), " +
 		"C11-lockrelease (every Lock/RLock in gldap is released on every path to the function's exit), C11-accounting (every connWg.Add is matched by a Done on every path, rules C12-done-last / C12-add-vs-wait), C11-waker-lifetime (a watcher goroutine that can be told to stop is told so only after (*conn).close has waited for the handlers), C11-waker (some code that runs asynchronously to those goroutines closes or deadlines every connection's socket once shutdownCtx is cancelled, and it is started for every accepted connection before its first read), C11-waker-first (no call that reaches ber.ReadPacket, a bufio.Writer write/flush, a net.Conn/tls.Conn read/write or a TLS handshake lies on a path of the connection goroutine before the watcher start), C11-deadline-kept (every holder of a connection socket is followed; a Set*Deadline that may clear the deadline runs only on the shutdown path, in connection setup, synchronously in the read loop or as the closing half of an arm/clear pair), C11-noblock (the connection goroutine contains no bare channel operation, select without a shutdown case or foreign Wait), " +
 		"C11-stop-order (listener.Close and cancel precede connWg.Wait), C11-run-nil (shutdown exits of Run return nil), C11-nolock (connection goroutines never take Server.mu, which Stop holds across Wait). The time bound itself is not decided."
@@ -1927,6 +1927,109 @@ func checkC07(c *Ctx) {
 		}
 	}
 	R.Trivial("C07-contained", "connection/request slice has no server-level effect", c.P.Pos(m.connFn.Pos()), "only connWg.Done, logging and onCloseHandler touch the Server")
+
+	// ---- C07-map-locked: concurrent access to a Go map is not a data race that merely gives a stale value: the runtime
+	// detects it and raises a fatal error ("concurrent map read and map write") that no recover() contains - the whole
+	// process dies. A map kept in a field of Server, Mux or conn that is written somewhere in the module is therefore
+	// read and written only with a mutex held (every access site has a non-empty must-held lock set).
+	{
+		shared := map[string]bool{"Server": true, "Mux": true, "conn": true}
+		type acc struct {
+			in    ssa.Instruction
+			fn    *ssa.Function
+			write bool
+			name  string
+		}
+		var accs []acc
+		written := map[string]bool{}
+		mapField := func(v ssa.Value) string {
+			ld, ok := v.(*ssa.UnOp)
+			if !ok || ld.Op != token.MUL {
+				return ""
+			}
+			fa, ok := ld.X.(*ssa.FieldAddr)
+			if !ok {
+				return ""
+			}
+			nt := an.StructOf(fa.X.Type())
+			if nt == nil || !shared[nt.Obj().Name()] || nt.Obj().Pkg() == nil || nt.Obj().Pkg().Path() != G {
+				return ""
+			}
+			if _, isMap := ld.Type().Underlying().(*types.Map); !isMap {
+				return ""
+			}
+			if _, fresh := an.Strip(fa.X).(*ssa.Alloc); fresh {
+				return "" // an object under construction, not yet visible to another goroutine
+			}
+			return nt.Obj().Name() + "." + an.FieldAddrName(fa)
+		}
+		for _, f := range c.shippedFuncs(G) {
+			an.Instrs(f, func(in ssa.Instruction) {
+				switch x := in.(type) {
+				case *ssa.MapUpdate:
+					if n := mapField(x.Map); n != "" {
+						accs = append(accs, acc{in, f, true, n})
+						written[n] = true
+					}
+				case *ssa.Lookup:
+					if n := mapField(x.X); n != "" {
+						accs = append(accs, acc{in, f, false, n})
+					}
+				case *ssa.Range:
+					if n := mapField(x.X); n != "" {
+						accs = append(accs, acc{in, f, false, n})
+					}
+				case *ssa.Call:
+					if b, ok := x.Common().Value.(*ssa.Builtin); ok && b.Name() == "delete" {
+						if n := mapField(x.Common().Args[0]); n != "" {
+							accs = append(accs, acc{in, f, true, n})
+							written[n] = true
+						}
+					}
+				}
+			})
+		}
+		nM := 0
+		sets := map[*ssa.Function]map[ssa.Instruction]an.LockSet{}
+		for _, a := range accs {
+			if !written[a.name] {
+				continue
+			}
+			nM++
+			if sets[a.fn] == nil {
+				sets[a.fn] = an.LockSets(a.fn, nil)
+			}
+			held := sets[a.fn][a.in]
+			if len(held) == 0 && a.fn.Parent() == nil && !token.IsExported(a.fn.Name()) {
+				// a private helper that every caller calls with a mutex held (`m.register(r)` under m.mu)
+				nCalls, allHeld := 0, true
+				for _, g := range c.shippedFuncs(G) {
+					for _, ci := range an.Calls(g) {
+						if an.StaticCallee(ci.Common()) != a.fn {
+							continue
+						}
+						nCalls++
+						if sets[g] == nil {
+							sets[g] = an.LockSets(g, nil)
+						}
+						if !isCall(ci) || len(sets[g][ci]) == 0 {
+							allHeld = false
+						}
+					}
+				}
+				if nCalls > 0 && allHeld {
+					held = an.LockSet{"(the caller's mutex)": true}
+				}
+			}
+			kind := "read"
+			if a.write {
+				kind = "write"
+			}
+			R.Check(len(held) > 0, "C07-map-locked", fname(a.fn)+": "+kind+" of map "+a.name, c.pos(a.in), "under "+held.String(),
+				"the map "+a.name+" is "+kind+" without any mutex held while another function of the module writes it: when the two overlap the runtime raises the fatal error \"concurrent map read and map write\", which no recover() contains - the process dies")
+		}
+		R.Count("C07-map-locked/accesses", nM)
+	}
 
 	// ---- C07-wg-nonneg: "the server process keeps running": a WaitGroup counter that goes negative panics, in the accept
 	// loop or in a teardown after its recover(), where nothing contains it (rule C12-nonneg, imported)
